@@ -629,3 +629,60 @@ def r11_walker_segment_test_siblings(ck, P):
             d = sorted(cur ^ ref)
             loc = next((l for a, b, l in sig if (a, b) in cur - ref), None) or next(iter(f.insts())).loc()
             ck.violation(R, fn, 'segment test', '%s tests the cached walker segment with {%s} while %s uses {%s}: for x exactly on a stop the two pipelines evaluate different segments (the half-open segment [left_x, right_x) excludes right_x), so the wide and the narrow rendering of the same gradient differ by a whole stop colour at hard edges' % (fn, ', '.join('x %s %s' % (b, a) for a, b in sorted(cur)), ref_fn, ', '.join('x %s %s' % (b, a) for a, b in sorted(ref))), loc)
+
+
+def r12_step_matches_component(ck, P):
+    """sibling agreement between a running position and its per-pixel step: the component of the position that was initialised from
+    vector[i] of the transformed reference point advances by matrix[i][0] (one destination pixel to the right)."""
+    R = ck.rule('C13-R12', 'in the gradient scanline loops, a running coordinate that starts from component i of the transformed reference point (v.vector[i]) is advanced per pixel by matrix[i][0] of the same transform - row i, column 0 - whatever local variables carry the values: a step taken from another entry makes every pixel after the first one use the parameter of a different point', floor=3)
+    n = 0
+    for un, u in sorted(P.units.items()):
+        if 'gradient' not in un:
+            continue
+        for fn, f in sorted(u.functions.items()):
+            def src_of(o, d=0, seen=None):
+                """('vec', i) | ('mat', r, c) | None: what a floating value was converted from (through constant phis, divisions by 65536, casts)"""
+                seen = set() if seen is None else seen
+                if o[0] != 'v' or d > 12 or o[1] in seen:
+                    return None
+                seen.add(o[1])
+                x = f.by_id[o[1]]
+                if x.op == 'load':
+                    st = [str(s) for s in f.path(x.a[0])[1]]
+                    idx = [int(s[1:-1]) for s in st if s.startswith('[') and s[1:-1].lstrip('-').isdigit()]
+                    nm = ' '.join(st)
+                    if 'transform.matrix' in nm and len(idx) >= 2:
+                        return ('mat', idx[-2], idx[-1])
+                    if 'vector.vector' in nm and idx:
+                        return ('vec', idx[-1])
+                    return None
+                if x.op in ('sitofp', 'fpext', 'fptrunc', 'sext', 'fdiv', 'fmul', 'fsub'):
+                    r = src_of(x.a[0], d + 1, seen)
+                    return r
+                if x.op == 'phi':
+                    rs = {src_of(a, d + 1, seen) for a in x.a if not (a[0] in ('fc', 'c'))}
+                    rs.discard(None)
+                    return rs.pop() if len(rs) == 1 else None
+                return None
+            for x in f.insts():
+                if x.op != 'fadd':
+                    continue
+                for acc, inc in ((x.a[0], x.a[1]), (x.a[1], x.a[0])):
+                    y = f.v(acc)
+                    if y is None or y.op != 'phi' or not any(a == ['v', x.i] for a in y.a):
+                        continue
+                    init = [a for a in y.a if a != ['v', x.i]]
+                    a_src = None
+                    for a in init:
+                        a_src = a_src or src_of(a)
+                    i_src = src_of(inc)
+                    if not a_src or a_src[0] != 'vec' or not i_src or i_src[0] != 'mat':
+                        continue
+                    n += 1; ck.saw(f)
+                    where = '%s/%s %s: position from vector[%d] += matrix[%d][%d]' % (un, fn, x.loc(), a_src[1], i_src[1], i_src[2])
+                    if i_src[1] == a_src[1] and i_src[2] == 0:
+                        ck.ok(R, where)
+                    else:
+                        ck.violation(R, fn, 'step of component %d at %s' % (a_src[1], x.loc()), '%s advances the coordinate that starts from v.vector[%d] by matrix[%d][%d] per pixel; one pixel to the right moves the transformed point by column 0 of the matrix, i.e. component %d by matrix[%d][0]: all pixels of a scanline after the first are evaluated at the wrong point for any transform whose off-diagonal entries differ' % (fn, a_src[1], i_src[1], i_src[2], a_src[1], a_src[1]), x.loc())
+    if n == 0:
+        ck.incomplete(R, 'no running coordinate advanced by a matrix entry found in the gradient units')
